@@ -8152,3 +8152,167 @@ func ruleWatchSetUnchangedOnFailure(c *core.Ctx) {
 		c.Undecided(rule, "anchor/watch set changes", 0, "no Watcher.Add/Remove with a computed argument next to the result of generateInWatchMode")
 	}
 }
+
+// GF1 (C02): the emitted C++ flags to_json writes the list of names only for a value that the names cover. In
+// cpp/ndjson the function printed for `to_json(ordered_json& j, <Flags> const& value)` assigns the array of names to `j`
+// (`j = arr;`) only inside an emitted `if (<x> == 0) {` block (x = value: nothing set; x = remaining: every bit
+// accounted for); everywhere else the integer is written. A name list for a value with an undefined bit drops the bit.
+// (The Python runtime's twin is rule PF2.)
+func ruleEmittedFlagsNamesOnlyWhenComplete(c *core.Ctx) {
+	const rule = "GF1"
+	c.Rule(rule, "cpp/ndjson: in the emitted flags to_json every `j = arr;` lies inside an emitted `if (… == 0) {` block", 2)
+	zeroIf := regexp.MustCompile(`^\s*if\s*\(\s*\w+(\.\w+\(\))?\s*==\s*0\s*\)\s*\{\s*$`)
+	n := 0
+	for _, d := range c.AllDecls() {
+		p := c.DeclPkg(d)
+		if p == nil || d.Body == nil || !strings.HasSuffix(p.PkgPath, "/internal/cpp/ndjson") || c.IsTestFile(d.Pos()) {
+			continue
+		}
+		info := p.TypesInfo
+		// emissions in source order (closures passed to w.Indented run in place)
+		type em struct {
+			t   string
+			pos token.Pos
+		}
+		var ems []em
+		// closures bound to a local print where they are called or handed on (w.Indented(printIt)), not where they are defined
+		lits := map[types.Object]*ast.FuncLit{}
+		var collect func(nn ast.Node, depth int)
+		collect = func(nn ast.Node, depth int) {
+			ast.Inspect(nn, func(m ast.Node) bool {
+				switch x := m.(type) {
+				case *ast.AssignStmt:
+					if len(x.Lhs) == 1 && len(x.Rhs) == 1 {
+						if fl, ok := x.Rhs[0].(*ast.FuncLit); ok {
+							if o := identObj(info, x.Lhs[0]); o != nil {
+								lits[o] = fl
+								return false
+							}
+						}
+					}
+				case *ast.CallExpr:
+					if t, ok := emissionTemplate(info, x); ok {
+						if t != "" {
+							ems = append(ems, em{t, x.Pos()})
+						}
+						return true
+					}
+					if depth < 4 {
+						if fl := lits[identObj(info, x.Fun)]; fl != nil {
+							collect(fl.Body, depth+1)
+							return false
+						}
+						for _, a := range x.Args {
+							if fl := lits[identObj(info, a)]; fl != nil {
+								collect(fl.Body, depth+1)
+							}
+						}
+					}
+				}
+				return true
+			})
+		}
+		collect(d.Body, 0)
+		inToJson := false
+		var open []string // headers of the emitted blocks that are open
+		for _, e := range ems {
+			for _, line := range strings.Split(e.t, "\n") {
+				tl := strings.TrimSpace(line)
+				if tl == "" {
+					continue
+				}
+				if strings.HasPrefix(tl, "void to_json(") && strings.HasSuffix(tl, "{") {
+					inToJson, open = true, []string{tl}
+					continue
+				}
+				if !inToJson {
+					continue
+				}
+				if regexp.MustCompile(`^j\s*=\s*arr\s*;`).MatchString(tl) {
+					n++
+					guarded := false
+					for _, h := range open {
+						if zeroIf.MatchString(h) {
+							guarded = true
+						}
+					}
+					c.Check(guarded, rule, fmt.Sprintf("%s/j = arr#%d", c.FuncName(d), n), e.pos, "inside an emitted `if (… == 0) {`",
+						"the emitted to_json assigns the list of names to `j` outside every `if (… == 0) {` block: a flags value with bits that no name covers is written as names only and read back without those bits")
+				}
+				opens, closes := strings.Count(tl, "{"), strings.Count(tl, "}")
+				for i := 0; i < closes && len(open) > 0; i++ {
+					open = open[:len(open)-1] // `} else {` closes one and opens one
+				}
+				for i := 0; i < opens; i++ {
+					open = append(open, tl)
+				}
+				if len(open) == 0 {
+					inToJson = false // the brace of the function itself was closed
+				}
+			}
+		}
+	}
+	if n == 0 {
+		c.Undecided(rule, "anchor/j = arr", 0, "no emitted `j = arr;` found in a to_json of cpp/ndjson")
+	}
+}
+
+// SN1 (C05): a string is parsed with a function as wide as the number it becomes. Where a step or field changed from
+// string to a number, the generated C++ parses the old string with std::sto*: stoi covers the integers up to 32 bits,
+// stol/stoll the 64-bit ones, stoul/stoull the unsigned ones, stof only float32, stod/stold both floating point types.
+// `std::stof` for a float64 silently rounds every value to single precision ("0.1" -> 0.10000000149011612) and rejects
+// 1e300.
+func ruleStringParsedWideEnough(c *core.Ctx) {
+	const rule = "SN1"
+	c.Rule(rule, "cpp/binary.writeTypeConversion: every `std::sto*(%s)` chosen for a set of primitives covers the range and precision of each of them", 4)
+	rows, d, _ := geeRows(c, "internal/cpp/binary", "writeTypeConversion")
+	if d == nil {
+		c.Undecided(rule, "anchor/cpp/binary.writeTypeConversion", 0, "anchor not found")
+		return
+	}
+	covers := map[string]map[string]bool{
+		"stoi":   {"Int8": true, "Int16": true, "Int32": true},
+		"stol":   {"Int8": true, "Int16": true, "Int32": true, "Int64": true},
+		"stoll":  {"Int8": true, "Int16": true, "Int32": true, "Int64": true},
+		"stoul":  {"Uint8": true, "Uint16": true, "Uint32": true, "Uint64": true, "Size": true},
+		"stoull": {"Uint8": true, "Uint16": true, "Uint32": true, "Uint64": true, "Size": true},
+		"stof":   {"Float32": true},
+		"stod":   {"Float32": true, "Float64": true},
+		"stold":  {"Float32": true, "Float64": true},
+	}
+	fnRe := regexp.MustCompile(`std::(sto[a-z]+)\(%s\)`)
+	primRe := regexp.MustCompile(`Primitive([A-Z][A-Za-z0-9]+)`)
+	n := 0
+	for _, r := range rows {
+		m := fnRe.FindStringSubmatch(r.Tmpl)
+		if m == nil {
+			continue
+		}
+		// the primitives this row is chosen for: the last set guard that lists primitives
+		var prims []string
+		for _, g := range r.Guards {
+			if strings.Contains(g, "PrimitiveDefinition)∈{") || strings.Contains(g, "∈{dsl.Primitive") || strings.Contains(g, "∈{Primitive") {
+				prims = nil
+				for _, pm := range primRe.FindAllStringSubmatch(g[strings.Index(g, "∈{"):], -1) {
+					prims = append(prims, pm[1])
+				}
+			}
+		}
+		if len(prims) == 0 {
+			continue
+		}
+		n++
+		key := fmt.Sprintf("std::%s#%d", m[1], n)
+		var bad []string
+		for _, pr := range prims {
+			if cv, ok := covers[m[1]]; !ok || !cv[pr] {
+				bad = append(bad, strings.ToLower(pr))
+			}
+		}
+		c.Check(len(bad) == 0, rule, key, r.Pos, "covers "+strings.Join(prims, ", "),
+			fmt.Sprintf("std::%s is chosen for %v: it does not cover their range / precision — values are rounded or rejected when an old string is converted", m[1], bad))
+	}
+	if n == 0 {
+		c.Undecided(rule, "anchor/std::sto*", d.Pos(), "no std::sto* row chosen by a set of primitives found in writeTypeConversion")
+	}
+}
